@@ -257,3 +257,139 @@ Qed.
 
 Theorem wfc_reachable_inv : forall n ls s, wfc_run (wfc_init n) ls = Some s -> wfc_inv s.
 Proof. intros. eapply wfc_run_inv; eauto. apply wfc_inv_init. Qed.
+
+(* ---- statements *)
+
+Lemma complete_pending : forall s st t f, wfc_inv s -> task s t = Some (TParked f FPending) ->
+  nth_error (complete_all (w_deque s) st (w_tasks s)) t = Some (TParked f st).
+Proof.
+  intros s st t f I H. rewrite complete_all_nth. unfold task in H. rewrite H. simpl.
+  assert (In f (w_deque s)) by (eapply i_in_dq; eauto). apply mem_fid_In in H0. rewrite H0. reflexivity.
+Qed.
+
+Lemma complete_other : forall dq st ts t x, nth_error ts t = Some x -> (forall f, x <> TParked f FPending) ->
+  nth_error (complete_all dq st ts) t = Some x.
+Proof.
+  intros dq st ts t x H N. rewrite complete_all_nth, H. simpl. f_equal.
+  destruct x as [|c|f s0]; auto. destruct s0; auto. exfalso. eapply N; eauto.
+Qed.
+
+Lemma all_waiters_resumed_proof :
+  forall n ls s, wfc_run (wfc_init n) ls = Some s ->
+    (forall t f, task s t = Some (TParked f FPending) ->
+       task (wfc_resume s) t = Some (TParked f FResult) /\
+       wfc_step (wfc_resume s) (WWake t) = Some (set_task t TIdle (wfc_resume s), [ODrain t ROk])) /\
+    (forall t x, task s t = Some x -> (forall f, x <> TParked f FPending) -> task (wfc_resume s) t = Some x) /\
+    w_deque (wfc_resume s) = w_deque s.
+Proof.
+  intros n ls s R. apply wfc_reachable_inv in R. split; [|split]; auto.
+  - intros t f H. assert (E : task (wfc_resume s) t = Some (TParked f FResult)).
+    { unfold task, wfc_resume; simpl. apply complete_pending; auto. }
+    split; auto. simpl. unfold get_task. unfold task in E. rewrite E. reflexivity.
+  - intros t x H N. unfold task, wfc_resume; simpl. apply complete_other; auto.
+Qed.
+
+(* a pending waiter is completed normally by resume_writing only *)
+Lemma resumed_only_by_resume_proof :
+  forall s l s' o t f, wfc_step s l = Some (s', o) ->
+    task s t = Some (TParked f FPending) -> task s' t = Some (TParked f FResult) -> l = WResume.
+Proof.
+  intros s l s' o t f H P Q. unfold task in *. destruct l as [u| | |e|b|u|g|u]; simpl in H; auto; exfalso.
+  - unfold get_task in H. destruct (nth_error (w_tasks s) u) as [x|] eqn:E; [|discriminate].
+    destruct x; try discriminate. unfold wfc_drain, drain_body in H.
+    destruct (w_closing s); [|destruct (w_lost s); [|destruct (negb (w_paused s))]]; inversion H; subst; simpl in Q;
+      try congruence; apply nth_error_upd_cases in Q; destruct Q as [[U X]|[U X]]; try congruence; subst; congruence.
+  - inversion H; subst. simpl in Q. congruence.
+  - inversion H; subst. unfold wfc_lost in Q. destruct (w_lost s); [congruence|]. simpl in Q.
+    rewrite complete_all_nth, P in Q. simpl in Q. destruct (mem_fid f (w_deque s)); inversion Q.
+  - inversion H; subst. simpl in Q. congruence.
+  - unfold get_task in H. destruct (nth_error (w_tasks s) u) as [x|] eqn:E; [|discriminate].
+    destruct x as [|c|g st]; try discriminate; inversion H; subst; simpl in Q;
+      apply nth_error_upd_cases in Q; destruct Q as [[U X]|[U X]]; try congruence.
+  - destruct (mem_fid g (w_deque s) && fut_done g (w_tasks s)); [|discriminate]. inversion H; subst. simpl in Q. congruence.
+  - unfold get_task in H. destruct (nth_error (w_tasks s) u) as [x|] eqn:E; [|discriminate].
+    destruct x as [|c|g st]; try discriminate.
+    + destruct c.
+      * inversion H; subst. simpl in Q. apply nth_error_upd_cases in Q. destruct Q as [[U X]|[U X]]; congruence.
+      * unfold drain_body in H. simpl in H.
+        destruct (w_lost s); [|destruct (negb (w_paused s))]; inversion H; subst; simpl in Q;
+          repeat (match goal with H0 : nth_error (upd _ _ _) _ = Some _ |- _ =>
+                    apply nth_error_upd_cases in H0; destruct H0 as [[? ?]|[? H0]]; try congruence end); congruence.
+    + destruct (res_of st); [|discriminate]. inversion H; subst. simpl in Q.
+      apply nth_error_upd_cases in Q. destruct Q as [[U X]|[U X]]; congruence.
+Qed.
+
+Lemma all_waiters_failed_on_loss_proof :
+  forall n ls s e, wfc_run (wfc_init n) ls = Some s ->
+    (forall t f, task s t = Some (TParked f FPending) ->
+       task (wfc_lost e s) t = Some (TParked f (FExc e)) /\
+       wfc_step (wfc_lost e s) (WWake t)
+         = Some (set_task t TIdle (wfc_lost e s), [ODrain t (if e then RConnExc else RErrno)])) /\
+    (forall t f, task (wfc_lost e s) t <> Some (TParked f FPending)).
+Proof.
+  intros n ls s e R. apply wfc_reachable_inv in R. split.
+  - intros t f H. assert (L : w_lost s = false) by (eapply i_live; eauto).
+    assert (E : task (wfc_lost e s) t = Some (TParked f (FExc e))).
+    { unfold task, wfc_lost. rewrite L. simpl. apply complete_pending; auto. }
+    split; auto. simpl. unfold get_task. unfold task in E. rewrite E. destruct e; reflexivity.
+  - intros t f C. unfold wfc_lost in C. destruct (w_lost s) eqn:L.
+    + apply (i_live s R) in C. destruct C. congruence.
+    + assert (I' := complete_all_inv s (FExc e) false true e R ltac:(discriminate)).
+      apply (i_live _ I') in C. simpl in C. destruct C. discriminate.
+Qed.
+
+Lemma cancel_one_keeps_others_proof :
+  forall n ls s t s' o, wfc_run (wfc_init n) ls = Some s -> wfc_step s (WCancel t) = Some (s', o) ->
+    (forall u, u <> t -> task s' u = task s u) /\
+    w_deque s' = w_deque s /\ w_paused s' = w_paused s /\ w_lost s' = w_lost s /\
+    (exists r, wfc_step s' (WWake t) = Some (r, [ODrain t RCancelled])) /\
+    (forall u f, u <> t -> task s u = Some (TParked f FPending) ->
+       task (wfc_resume s') u = Some (TParked f FResult) /\
+       (forall e, task (wfc_lost e s') u = Some (TParked f (FExc e)))).
+Proof.
+  intros n ls s t s' o R H. assert (I := wfc_reachable_inv _ _ _ R).
+  assert (I' : wfc_inv s') by (eapply wfc_step_inv; eauto).
+  simpl in H. unfold get_task in H. destruct (nth_error (w_tasks s) t) as [x|] eqn:E; [|discriminate].
+  assert (K : forall y, (forall u, u <> t -> task (set_task t y s) u = task s u)).
+  { intros y u N. unfold task. simpl. apply nth_error_upd_neq; auto. }
+  assert (W : forall y, nth_error (w_tasks (set_task t y s)) t = Some y).
+  { intros y. simpl. eapply nth_error_upd_eq; eauto. }
+  destruct x as [|c|f st]; try discriminate; inversion H; subst; clear H;
+    (split; [apply K|]); (split; [reflexivity|]); (split; [reflexivity|]); (split; [reflexivity|]); split.
+  - eexists. simpl. unfold get_task. rewrite W. reflexivity.
+  - intros u f N P. rewrite <- (K (TYield true) u N) in P. split.
+    + unfold task, wfc_resume; simpl. apply (complete_pending _ FResult u f I' P).
+    + intros e. assert (L : w_lost (set_task t (TYield true) s) = false) by (eapply i_live; eauto).
+      unfold task, wfc_lost. rewrite L. simpl. apply (complete_pending _ (FExc e) u f I' P).
+  - eexists. simpl. unfold get_task. rewrite W. reflexivity.
+  - intros u g N P. rewrite <- (K (TParked f FCancelled) u N) in P. split.
+    + unfold task, wfc_resume; simpl. apply (complete_pending _ FResult u g I' P).
+    + intros e. assert (L : w_lost (set_task t (TParked f FCancelled) s) = false) by (eapply i_live; eauto).
+      unfold task, wfc_lost. rewrite L. simpl. apply (complete_pending _ (FExc e) u g I' P).
+Qed.
+
+Lemma not_done_has_pending : forall f ts, fut_done f ts = false -> exists t, nth_error ts t = Some (TParked f FPending).
+Proof.
+  intros f ts H. unfold fut_done in H. apply negb_false_iff in H. apply existsb_exists in H.
+  destruct H as [x [Hin Hx]]. destruct x as [|c|g st]; try discriminate. destruct st; try discriminate.
+  apply Nat.eqb_eq in Hx. subst g. apply In_nth_error in Hin. exact Hin.
+Qed.
+
+Lemma no_waiter_leak_proof :
+  forall n ls s, wfc_run (wfc_init n) ls = Some s ->
+    NoDup (w_deque s) /\
+    (forall t f, task s t = Some (TParked f FPending) -> In f (w_deque s) /\ w_paused s = true /\ w_lost s = false) /\
+    (forall t u f st st', task s t = Some (TParked f st) -> task s u = Some (TParked f st') -> t = u) /\
+    (forall f, In f (w_deque s) ->
+       (exists t, task s t = Some (TParked f FPending)) \/
+       (exists s', wfc_step s (WCallback f) = Some (s', []) /\ w_deque s' = remove_fid f (w_deque s) /\
+                   ~ In f (w_deque s') /\ w_tasks s' = w_tasks s)).
+Proof.
+  intros n ls s R. apply wfc_reachable_inv in R. destruct R as [I1 I2 I3 I4 I5 I6].
+  split; [auto|]. split; [|split; [auto|]].
+  - intros t f H. split; eauto.
+  - intros f Hf. destruct (fut_done f (w_tasks s)) eqn:D.
+    + right. simpl. apply mem_fid_In in Hf. rewrite Hf, D. simpl. eexists. split; [reflexivity|]. simpl.
+      split; auto. split; auto. apply remove_fid_gone; auto.
+    + left. apply not_done_has_pending in D. exact D.
+Qed.
